@@ -56,6 +56,9 @@ pub struct Schedule {
     pub truncate_at: Option<usize>,
     /// call end() at this pause ordinal, with unread input left in the queue (F4, C04 only)
     pub end_at_pause: Option<usize>,
+    /// F15: the embedder hands every chunk over in a queue of its own — whatever a feed() that
+    /// returned Done left in the queue is gone (feed() is documented to drain it)
+    pub fresh_queue: bool,
 }
 
 impl Schedule {
@@ -85,6 +88,7 @@ impl Schedule {
             "collect_at": self.collect_at,
             "truncate_at": self.truncate_at,
             "end_at_pause": self.end_at_pause,
+            "fresh_queue": self.fresh_queue,
         })
     }
 
@@ -109,6 +113,7 @@ impl Schedule {
             collect_at: v["collect_at"].as_array().map(|a| a.iter().map(us).collect()).unwrap_or_default(),
             truncate_at: v["truncate_at"].as_u64().map(|x| x as usize),
             end_at_pause: v["end_at_pause"].as_u64().map(|x| x as usize),
+            fresh_queue: v["fresh_queue"].as_bool().unwrap_or(false),
         }
     }
 
@@ -340,7 +345,9 @@ pub fn gen_schedule(rng: &mut Rng, input: &str, knobs: SchedKnobs) -> Schedule {
         None
     };
     let end_at_pause = if knobs.allow_end_at_pause && rng.chance(1, 20) { Some(rng.below(3)) } else { None };
-    Schedule { cuts, repr_name: repr.name().to_string(), pauses, collect_at, truncate_at, end_at_pause }
+    // drawn last so that the streams of older cases stay what they were
+    let fresh_queue = rng.chance(1, 4);
+    Schedule { cuts, repr_name: repr.name().to_string(), pauses, collect_at, truncate_at, end_at_pause, fresh_queue }
 }
 
 /// Materialise the chunks of `input` for a schedule.  Returns the tendrils in
